@@ -295,7 +295,7 @@ var valid = map[string][]Dir{
 	"status":     {{Name: "status", Args: []string{"404", "/x"}}, {Name: "status", Args: []string{"410"}, Has: true, Sub: []SubLine{{Toks: []string{"/a"}}, {Toks: []string{"/b"}}}}},
 	"templates":  {{Name: "templates"}, {Name: "templates", Args: []string{"/t", ".html"}}, {Name: "templates", Has: true, Sub: []SubLine{{Toks: []string{"path", "/t"}}, {Toks: []string{"ext", ".html"}}, {Toks: []string{"between", "<<", ">>"}}}}},
 	"timeouts":   {{Name: "timeouts", Args: []string{"30s"}}, {Name: "timeouts", Has: true, Sub: []SubLine{{Toks: []string{"read", "10s"}}, {Toks: []string{"idle", "none"}}}}},
-	"tls":        {{Name: "tls", Args: []string{"off"}}, {Name: "tls", Args: []string{"self_signed"}}, {Name: "tls", Args: []string{"a@b.test"}}, {Name: "tls", Has: true, Sub: []SubLine{{Toks: []string{"protocols", "tls1.2", "tls1.3"}}, {Toks: []string{"key_type", "p256"}}}}, {Name: "tls", Args: []string{"cert.pem", "key.pem"}}, {Name: "tls", Has: true, Sub: []SubLine{{Toks: []string{"wildcard"}}}}, {Name: "tls", Args: []string{"a@b.test"}, Has: true, Sub: []SubLine{{Toks: []string{"wildcard"}}, {Toks: []string{"must_staple"}}}}},
+	"tls":        {{Name: "tls", Args: []string{"off"}}, {Name: "tls", Args: []string{"self_signed"}}, {Name: "tls", Args: []string{"a@b.test"}}, {Name: "tls", Has: true, Sub: []SubLine{{Toks: []string{"protocols", "tls1.2", "tls1.3"}}, {Toks: []string{"key_type", "p256"}}}}, {Name: "tls", Args: []string{"cert.pem", "key.pem"}}, {Name: "tls", Args: []string{"self_signed"}, Has: true, Sub: []SubLine{{Toks: []string{"key_type", "p384"}}}}, {Name: "tls", Args: []string{"self_signed"}, Has: true, Sub: []SubLine{{Toks: []string{"key_type", "ed25519"}}}}, {Name: "tls", Args: []string{"self_signed"}, Has: true, Sub: []SubLine{{Toks: []string{"key_type", "rsa2048"}}, {Toks: []string{"protocols", "tls1.2"}}}}, {Name: "tls", Has: true, Sub: []SubLine{{Toks: []string{"wildcard"}}}}, {Name: "tls", Args: []string{"a@b.test"}, Has: true, Sub: []SubLine{{Toks: []string{"wildcard"}}, {Toks: []string{"must_staple"}}}}},
 	"tryfiles":   {{Name: "tryfiles", Args: []string{"{path}", "/index.html"}}},
 	"websocket":  {{Name: "websocket", Args: []string{"/ws", "true"}}, {Name: "websocket", Has: true, Sub: []SubLine{{Toks: []string{"respawn"}}}}},
 }
@@ -312,7 +312,7 @@ var dirNames = func() []string {
 // lexical classes of values; command, file and interval slots stay harmless
 var values = []string{"", "0", "1", "-1", "5", "99999999999999999999", "65536", "65535", "255", "256", "2147483647", "2147483648", "4294967295", "4294967296", "9223372036854775807", "9223372036854775808", "-2147483649", "1e9", "0x10", "007", "1s", "0s", "-5s", "10m", "none", "off", "on", "*", "/", "/x", "x", ".php", "1MB", "4KB", "0B", "-1KB", "1GB", "9999999GB", "KB",
 	"missing.txt", "ht.txt", "htpasswd=ht.txt", "htpasswd=missing.txt", "htpasswd=bad-ht.txt", "htpasswd=", "htpasswd=dir", "Casketfile", "./Casketfile", "bad-ht.txt", "cert.pem", "key.pem", "page.html", "dir", "./", "a.log", "stdout", "stderr", "syslog", "http://127.0.0.1:9", "https://127.0.0.1:9", "127.0.0.1:9", "localhost:9-12", "localhost:70000", "localhost:65533-65535", "localhost:65535-65535", "localhost:65535", "localhost:12-9", "localhost:65534-65536", "localhost:0-2", "localhost:1-", "localhost:-5", "localhost:5-5-5", "unix:/nonexistent.sock", "srv://x.test", "://", "h:p:q",
-	"^(.*)$", "(", "[a-", "{path}", "{>X}", "{1}", "{$HOME}", "text/plain", "tls1.2", "tls1.0", "ssl3", "p256", "rsa2048", "X25519", "ECDHE-RSA-AES128-GCM-SHA256", "GET", "get", "301", "999", "abc", "is", "not", "match", "true", "false", "nonexistent-command-xyz", "&", "ü", strings.Repeat("a", 300), "a b", "\"", "255.255.255.0", "ffff::", "300.1.1.1", "round_robin", "header", "ip_hash", "random", "startup", "shutdown", "certrenew", "bogus_event", "zip", "tar.gz", "rar", "lines", "text", "binary", "request", "require", "verify_if_given", "ca.pem",
+	"^(.*)$", "(", "[a-", "{path}", "{>X}", "{1}", "{$HOME}", "text/plain", "tls1.2", "tls1.0", "ssl3", "p256", "p384", "ed25519", "rsa2048", "rsa1024", "X25519", "ECDHE-RSA-AES128-GCM-SHA256", "GET", "get", "301", "999", "abc", "is", "not", "match", "true", "false", "nonexistent-command-xyz", "&", "ü", strings.Repeat("a", 300), "a b", "\"", "255.255.255.0", "ffff::", "300.1.1.1", "round_robin", "header", "ip_hash", "random", "startup", "shutdown", "certrenew", "bogus_event", "zip", "tar.gz", "rar", "lines", "text", "binary", "request", "require", "verify_if_given", "ca.pem",
 	// command texts that are not blank yet hold no word once a shell-like splitter is done with them
 	"#", "# todo", "#!/bin/true", "   ", "\t", "''", "\\", "'", "a 'b", "$(", "`"}
 
@@ -522,6 +522,7 @@ func TestSetup(t *testing.T) {
 // hostile constants: the spellings the repository's own defects were found with, plus arity edge cases
 var constants = []string{
 	"localhost:0 {\n\ttls {\n\t\tkey_type\n\t}\n\tzz_end\n}\n",
+	"localhost:0 {\n\ttls self_signed {\n\t\tkey_type ed25519\n\t}\n\tzz_end\n}\n", "localhost:0 {\n\ttls self_signed {\n\t\tkey_type p384\n\t}\n\tzz_end\n}\n", "localhost:0 {\n\ttls self_signed {\n\t\tkey_type bogus\n\t}\n\tzz_end\n}\n",
 	"localhost:0 {\n\ttls {\n\t\tprotocols\n\t}\n\tzz_end\n}\n",
 	"localhost:0 {\n\tlimits {\n\t\tbody \"\" 5\n\t}\n\tzz_end\n}\n",
 	"localhost:0 {\n\tbasicauth /s bob htpasswd=missing.txt\n\tzz_end\n}\n",
@@ -636,6 +637,12 @@ func replayCase(rf *vt.ReplayFile) error {
 		}
 		_, err := runCase(&c, func(msg string) { fmt.Println(msg); os.Exit(1) })
 		return err
+	case "env":
+		var c envCase
+		if err := vt.Decode(rf, &c); err != nil {
+			return err
+		}
+		return runEnv(&c, func(msg string) { fmt.Println(msg); os.Exit(1) })
 	case "constants":
 		var c textCase
 		if err := vt.Decode(rf, &c); err != nil {
